@@ -89,6 +89,16 @@ CLAIMED = {
             "not decide that the evaluator's answer is right (C15) nor asset loading.",
             "interprocedural dirty/clean dataflow over go/ssa with CHA dispatch and object-root sensitivity, guard dominance",
             "DESIGN.md §4 C06"),
+    "C07": ("Structural necessary conditions of 'routers take the exit their definition prescribes', decided by value provenance on "
+            "the SSA form: in routeToCategory one category value feeds the exit, the saved name and the localization key and is "
+            "selected by UUID equality; argument roles (match->value, operand->input, resultName->name, step node); in "
+            "SwitchRouter.Route matchCase's three results feed category/match/extra, the default branch is guarded exactly by "
+            "(no case matched && default set) and re-derives the match from the operand text; RouteTimeout uses the timeout "
+            "category; matchCase walks cases forward, returns only on this case's truthy result with this case's category and "
+            "continues after an erroring test; an empty exit fails the run; the random index derives only from the draw and "
+            "len(categories); Results.Save always stores. Does not decide what each test function matches.",
+            "SSA value-provenance and guard-dominance checks on the router functions",
+            "DESIGN.md §4 C07"),
 }
 
 NOT_APPLICABLE = {}
